@@ -1593,6 +1593,11 @@ class Emitter:
         isref = rti.ref or (n.get('valueCategory') == 'lvalue' and rti.kind != 'void')
         retc = rti.c + (' *' if isref else '')
         key = sname
+        if any(re.search(rx, sname) for rx in getattr(self.spec, 'stub_by_signature', []) or []):
+            # opt-in (stub-by-signature <regex>): overloads are told apart by their argument types, not by
+            # the order in which they are met, so that an overload that disappears does not rename the others
+            tag = '_'.join(re.sub(r'[^A-Za-z0-9]+', '_', t.replace('/*in*/', '').replace('struct ', '').replace(' *', 'p')).strip('_') for t in atys) or 'void'
+            key = '%s__%s' % (sname, tag)
         k = 2
         while key in self.stubs and self.stubs[key] != (retc, atys):
             key = '%s_%d' % (sname, k)
